@@ -144,8 +144,13 @@ def FEBody.codec : PCodec (Row × Row × List FEChannel) where
 abbrev FilterEffect := B × Row × (Row × Row × List FEChannel) × Option FEExtra
 
 /-- uuid, version (`assert version <= 1`), the body in its `Q` length block, the optional extra -/
+def isAscii (b : B) : Bool := b.all (fun c => c.toNat < 128)
+
+/-- `read_pascal_string(fp, encoding="ascii", padding=1)`: the bytes are decoded at once (`UnicodeDecodeError`) -/
+def asciiPascal : PCodec B := checked (pascal 1 1) (fun b => isAscii b = true) .unicodeError
+
 def FilterEffect.codec : PCodec FilterEffect :=
-  seq (pascal 1 1) (seq (checked (rec [U 4]) (fun r => r.int 0 ≤ 1) .assertionError)
+  seq asciiPascal (seq (checked (rec [U 4]) (fun r => r.int 0 ≤ 1) .assertionError)
     (seq (blocked 8 1 FEBody.codec) (optTail FEExtra.codec)))
 
 /-- `FilterEffects`: version (`assert version in (1, 2, 3)`), one `Q` length block with padding 4 per item -/
